@@ -86,6 +86,22 @@ func campaignC18(p *Parser, req *Request, resp *Response) {
 			sc.ChangePoints = append(sc.ChangePoints, 1+simrt.Choose(span))
 		}
 	}
+	if p.Prebuild != nil {
+		seen := map[string]bool{}
+		var keys []string
+		for i := range clients {
+			for j := range clients[i] {
+				for _, k := range clients[i][j].Opts.SharedKeys() {
+					if !seen[k] {
+						seen[k] = true
+						keys = append(keys, k)
+					}
+				}
+			}
+		}
+		p.Prebuild(keys)
+		resp.stat("shared_option_values", len(keys))
+	}
 	results := make([][]*CallResult, len(clients))
 	bodies := make([]func(*simrt.Client), len(clients))
 	for i := range clients {
